@@ -748,7 +748,7 @@ class Watcher(object):
                 break
             yield tornado_sleep(0.1)
             waited += 0.1
-        if waited >= graceful_timeout:
+        if waited >= graceful_timeout and process.is_alive():
             # On Windows we can't send a SIGKILL signal, but the
             # process.stop function will terminate the process
             # later anyway
